@@ -136,6 +136,7 @@ struct Derived
         auto cm = bins_of(c);
         ++ctx.counters["cumulative_calls"];
         if (D > 1) ++ctx.witness["cumulative_nd"]; else ++ctx.witness["cumulative_1d"];
+        for (auto const& kv : in) if (kv.second != double(long(kv.second))) { ++ctx.witness[D > 1 ? "cumulative_nd_non_integral_bin" : "cumulative_1d_non_integral_bin"]; break; }
         // monotone along every axis: two bins whose keys differ in exactly one coordinate
         for (auto a = cm.begin(); a != cm.end(); ++a)
             for (auto b = cm.begin(); b != cm.end(); ++b)
